@@ -15,16 +15,19 @@ PROPERTY = "C09"
 LEAN_MODULES = ["AioProps.C09"]
 THEOREMS = [
     "Aio.C09.expand_lawful",
-    "Aio.C09.rdFeed_conserves",
     "Aio.C09.conservation",
-    "Aio.C09.resident_bounded",
-    "Aio.C09.corrupt_is_error",
+    "Aio.C09.payFeed_adds_at_most",
+    "Aio.C09.rdFeed_pauses_above_high",
+    "Aio.C09.drain_respects_pause",
+    "Aio.C09.resident_bounded_partial",
     "Aio.C09.error_is_sticky",
+    "Aio.C09.corrupt_is_error",
+    "Aio.C09.truncated_clean_eof_counterexample",
     "Aio.C09.read_capped",
-    "Aio.C09.transparent_identity_length_partial",
     "Aio.C09.progress_counterexample_stale_pause",
     "Aio.C09.lost_body_counterexample_peer_close",
-    "Aio.C09.truncated_clean_eof_counterexample",
+    "Aio.C09.lost_body_counterexample_chunked_close",
+    "Aio.C09.parked_reader_misses_error_counterexample",
 ]
 RULE = ("a case = (side client|server, encoding identity|gzip|deflate|raw-deflate|br|zstd, framing Content-Length|chunked|"
         "until-EOF, read-buffer limit in {1,2,3,5,16,100,1024,4096,65536}, payload shape random|text|bomb|multi-member|"
